@@ -496,6 +496,37 @@ pub fn run(ctx: &RunCtx) -> i32 {
     });
     total.note(format!("exhaustive: {} patterns (length <= {pl}) x {} inputs (length <= {sl})", pats.len() - 1, inputs.len()));
 
+    // exhaustive again, over characters of 1, 2, 3 and 4 bytes: patterns over {*, ?, a, U+4E2D} up to length 5 (6 in the
+    // thorough tier) x inputs over {a, U+00E9, U+4E2D, U+1F600} up to length 4 (5)
+    {
+        let (pl2, sl2) = if ctx.tier == Tier::Quick { (5usize, 4usize) } else { (6, 5) };
+        let words = |alpha: &[&str], max: usize| -> Vec<String> {
+            let mut out: Vec<String> = vec![String::new()];
+            let mut frontier: Vec<String> = vec![String::new()];
+            for _ in 0..max {
+                let mut next = Vec::new();
+                for w in &frontier {
+                    for a in alpha {
+                        next.push(format!("{w}{a}"));
+                    }
+                }
+                out.extend(next.iter().cloned());
+                frontier = next;
+            }
+            out
+        };
+        let upats: Vec<String> = words(&["*", "?", "a", "\u{4e2d}"], pl2).into_iter().filter(|p| !p.is_empty()).collect();
+        let uins: Vec<String> = words(&["a", "\u{e9}", "\u{4e2d}", "\u{1F600}"], sl2);
+        let (up, ui) = (&upats, &uins);
+        let rep = par_run(ctx.workers, upats.len() as u64, |j, r| {
+            let p = up[j as usize].as_str();
+            for s in ui {
+                check_pair(r, &[p], s, "unicode-exhaustive");
+            }
+        });
+        total.merge(rep);
+        total.note(format!("exhaustive over multi-byte characters: {} patterns (length <= {pl2}) x {} inputs (length <= {sl2})", upats.len(), uins.len()));
+    }
     // random part: longer, unicode, sets
     let n_rand = ctx.tier.sz(2_000_000, 8_000_000);
     let chunk = 2000u64;
